@@ -2,6 +2,7 @@
    number conversions, and the judgement of XML round trips (dump of the original vs dump of the reloaded topology). -/
 import Hw.Io.Xml
 import Hw.Io.Base64
+import Hw.Io.XmlObj
 import Driver.Topo
 namespace Driver.XmlRtEng
 open Hw Hw.Xml Hw.Topo Driver
@@ -95,6 +96,67 @@ def judge (fmt : String) (s : St) : String :=
       else "EQ FAIL " ++ ",".intercalate (dumpDiffs (normMem o') r ++ (if xeq then [] else ["extra:" ++ firstXDiff s.xo.reverse s.xr.reverse]))
   | none, _, _ => "EQ FAIL missing-dump"
 
+/-! ### object-level unit stream -/
+open Hw.XmlObj in
+def parseHexOpt (s : String) : Option (Option (List Nat)) :=
+  if s = "-" then some none else (parseHexBytes s).map some
+
+def parseSetOpt (s : String) : Option (Option Nat) :=
+  if s = "-" then some none else (parseHex s).map some
+
+open Hw.XmlObj in
+def parsePci (s : String) : Option (Option PciFields) :=
+  if s = "-" then some none else
+  match s.splitOn "," with
+  | [d, bu, dv, fn, c, ve, de, sv, sd, r, p, ls] => do
+    let d ← parseNat d; let bu ← parseNat bu; let dv ← parseNat dv; let fn ← parseNat fn; let c ← parseNat c
+    let ve ← parseNat ve; let de ← parseNat de; let sv ← parseNat sv; let sd ← parseNat sd; let r ← parseNat r; let p ← parseNat p
+    let ls ← parseHexBytes ls
+    pure (some { domain := d, bus := bu, dev := dv, func := fn, classId := c, vendor := ve, device := de, subvendor := sv, subdevice := sd,
+                 revision := r, progIf := p, linkspeed := ls })
+  | _ => none
+
+open Hw.XmlObj in
+def parseFields (t : List String) : Option ObjFields :=
+  match t with
+  | [ty, os, gp, cs, ccs, ns, cns, ac, an, nm, st, a0, a1, a2, a3, a4, a5, pci] => do
+    let ty ← parseNat ty; let os ← parseInt os; let gp ← parseNat gp
+    let cs ← parseSetOpt cs; let ccs ← parseSetOpt ccs; let ns ← parseSetOpt ns; let cns ← parseSetOpt cns
+    let ac ← parseSetOpt ac; let an ← parseSetOpt an
+    let nm ← parseHexOpt nm; let st ← parseHexOpt st
+    let attrs ← [a0, a1, a2, a3, a4, a5].mapM parseInt
+    let pci ← parsePci pci
+    pure { type := ty, osidx := if os < 0 then none else some os.toNat, gp := gp, cpuset := cs, ccpuset := ccs, nodeset := ns, cnodeset := cns,
+           allowed := (match ac, an with | some x, some y => some (x, y) | _, _ => none), name := nm, subtype := st, attrs := attrs, pci := pci }
+  | _ => none
+
+/-- fields the core rewrites after the import: a Group's / Bridge's depth, and the cpusets of memory objects (F55: fixup_sets) -/
+def cmpNorm (f : Hw.XmlObj.ObjFields) : Hw.XmlObj.ObjFields :=
+  let f := Hw.XmlObj.normalise f
+  if Hw.XmlObj.isMemoryT f.type then { f with cpuset := none, ccpuset := none } else f
+
+def bytesStr (l : List Nat) : String := String.ofList (l.map Char.ofNat)
+
+open Hw.XmlObj in
+def judgeObj (root : Bool) (ptype : Nat) (phas : Bool) (tag : List Nat) (fo : ObjFields) (fr : Option ObjFields) : String :=
+  let c : Ctx := { root := root, parentType := ptype, parentHasSets := phas }
+  let scanned := scanAttrs (tag.length + 1) tag
+  let expected := exportAttrs root fo
+  if scanned ≠ expected then
+    let d := ((scanned.zip expected).filter (fun (x, y) => x ≠ y)).head?
+    "OBJ FAIL export-attrs:" ++ (match d with
+      | some (x, y) => bytesStr x.1 ++ "=" ++ hexOfBytes x.2 ++ "/model:" ++ bytesStr y.1 ++ "=" ++ hexOfBytes y.2
+      | none => "count:" ++ toString scanned.length ++ "/" ++ toString expected.length)
+  else if !Valid c fo then "OBJ FAIL original-not-Valid"
+  else match importAttrs c scanned, fr with
+    | .ok f', some r =>
+      if f' ≠ normalise fo then "OBJ FAIL import-differs-from-normalised-original"
+      else if cmpNorm f' = cmpNorm r then "OBJ ok" else "OBJ FAIL import-differs-from-reloaded"
+    | .ok _, none => "OBJ FAIL reloaded-object-missing"
+    | .ignored, _ => "OBJ FAIL import:ignored"
+    | .reject, _ => "OBJ FAIL import:reject"
+    | .outside, _ => "OBJ FAIL import:outside"
+
 def intStr (i : Int) : String := toString i
 
 def tgtOf (ts : Nat) : B64.Tgt := { cells := List.replicate ts 170 }
@@ -138,6 +200,18 @@ def step (s : St) (line : String) : St × String :=
         | .ok p _ => (s, "NUM " ++ hexOfBytes txt ++ " " ++ toString (if conv = "u" then p % 2^32 else p))
         | .unsupported => (s, "NUM unsupported")
       | none => (s, "bad-op")
+  | "OBJ" :: root :: ptype :: phas :: tag :: "O" :: rest =>
+    let fo := rest.take 18
+    let rr := rest.drop 18
+    match parseHexBytes tag, parseFields fo, parseNat ptype with
+    | some tg, some f, some pt =>
+      (match rr with
+       | ["R", "-"] => (s, judgeObj (root = "1") pt (phas = "1") tg f none)
+       | "R" :: r => (match parseFields r with
+          | some fr => (s, judgeObj (root = "1") pt (phas = "1") tg f (some fr))
+          | none => (s, "bad-op"))
+       | _ => (s, "bad-op"))
+    | _, _, _ => (s, "bad-op")
   | "CASE" :: _ => ({}, ".")
   | "OP" :: _ => (s, ".")
   | ["RT"] => (s, ".")
